@@ -705,6 +705,26 @@ def main():
         raise Missing("media:process_application_message-call")
     boolean("appMessageFiledUnderReceiverEpoch", "mls_group.epoch().as_u64()" in mcall.group(1),
             "messages/process.rs: process_application_message is given mls_group.epoch() (the RECEIVER's epoch) as the epoch to store")
+    # ---- message windows (C02, msgwin engine) ---------------------------------------------------
+    msgs_mod = strip_comments(non_test(read("crates/mdk-core/src/messages/mod.rs")))
+    nat("epochLookback", const_usize(msgs_mod, "DEFAULT_EPOCH_LOOKBACK", "const:DEFAULT_EPOCH_LOOKBACK"),
+        "mdk-core messages/mod.rs DEFAULT_EPOCH_LOOKBACK: past epoch numbers whose stored exporter secret the outer NIP-44 layer tries (not configurable)")
+    win_pat = (r"SenderRatchetConfiguration::new\(\s*self\.config\.out_of_order_tolerance\s*,\s*self\.config\.maximum_forward_distance\s*,?\s*\)"
+               r".*?\.sender_ratchet_configuration\(\s*sender_ratchet_config\s*\).*?\.max_past_epochs\(\s*self\.config\.max_past_epochs\s*\)")
+    grp_rs = strip_comments(non_test(read("crates/mdk-core/src/groups.rs")))
+    wel_rs = strip_comments(non_test(read("crates/mdk-core/src/welcomes.rs")))
+    boolean("windowsHandedToOpenMls", bool(re.search(win_pat, grp_rs, re.S)) and bool(re.search(win_pat, wel_rs, re.S)),
+            "groups.rs create_group and welcomes.rs (join config): SenderRatchetConfiguration::new(config.out_of_order_tolerance, config.maximum_forward_distance) and .max_past_epochs(config.max_past_epochs) are handed to OpenMLS")
+    lib_rs = strip_comments(non_test(read("crates/mdk-core/src/lib.rs")))
+    mdef = re.search(r"impl\s+Default\s+for\s+MdkConfig\s*\{(.*?)\n\}", lib_rs, re.S)
+    if not mdef:
+        raise Missing("const:MdkConfig::default")
+    for lean, field in [("defaultOutOfOrderTolerance", "out_of_order_tolerance"), ("defaultMaximumForwardDistance", "maximum_forward_distance"),
+                        ("defaultMaxPastEpochs", "max_past_epochs")]:
+        mm = re.search(field + r"\s*:\s*([0-9_]+)", mdef.group(1))
+        if not mm:
+            raise Missing("const:MdkConfig::default." + field)
+        nat(lean, int(mm.group(1).replace("_", "")), "mdk-core lib.rs MdkConfig::default()." + field)
     gi_rs = strip_comments(non_test(read("crates/mdk-core/src/extension/group_image.rs")))
     dgi = fn_body(gi_rs, "decrypt_group_image", "fn:decrypt_group_image")
     i_hash, i_v2, i_v1 = dgi.find("HashVerificationFailed"), dgi.find("IMAGE_ENCRYPTION_CONTEXT_V2"), dgi.find("new_from_slice(image_key.as_ref())")
